@@ -1,1 +1,208 @@
-//! (stub)
+//! Read-side adversaries: `ChunkRead` (short reads, scripted sizes, stop-at-boundary cuts, spurious
+//! `Interrupted`) and `WindowBufRead` (a direct `BufRead` whose `fill_buf` exposes scripted windows).
+
+use serde::{Deserialize, Serialize};
+use std::io::{self, BufRead, Read, Seek, SeekFrom};
+use std::sync::{Arc, Mutex};
+
+/// How a byte source delivers its data.
+#[derive(Clone, Debug, Default, Serialize, Deserialize, PartialEq)]
+pub struct ReadScript {
+    /// sizes returned by successive `read` calls (cycled; each ≥ 1; empty = unlimited)
+    pub sizes: Vec<u32>,
+    /// absolute offsets at which a read must stop (a read never crosses the next cut)
+    pub cuts: Vec<u32>,
+    /// pattern over calls (cycled): `true` = return `ErrorKind::Interrupted` instead of data.
+    /// Must contain a `false`; empty = never. At most `MAX_INTERRUPTS` are delivered in total: a
+    /// *placement* of spurious interrupts is finite — an interrupter that is periodic forever can
+    /// livelock even a correct retry loop around an operation that needs several reads without
+    /// making persistent progress (e.g. three reads that all return 0 at end of file).
+    pub interrupts: Vec<bool>,
+}
+
+impl ReadScript {
+    pub fn plain() -> Self {
+        Self::default()
+    }
+    pub fn has_interrupts(&self) -> bool {
+        self.interrupts.iter().any(|b| *b) && self.interrupts.iter().any(|b| !*b)
+    }
+}
+
+pub const MAX_INTERRUPTS: u64 = 64;
+
+#[derive(Clone, Debug, Default)]
+pub struct ReadStats {
+    pub calls: u64,
+    pub short_reads: u64,
+    pub interrupts: u64,
+    /// offsets at which a read ended before the end of data (the actual split points)
+    pub splits: Vec<usize>,
+}
+
+pub struct ChunkRead {
+    data: Arc<Vec<u8>>,
+    pos: usize,
+    script: ReadScript,
+    call: usize,
+    size_i: usize,
+    pub stats: Arc<Mutex<ReadStats>>,
+    track_splits: bool,
+}
+
+impl ChunkRead {
+    pub fn new(data: Arc<Vec<u8>>, mut script: ReadScript) -> Self {
+        script.cuts.sort_unstable();
+        script.sizes.retain(|s| *s > 0);
+        if !script.has_interrupts() {
+            script.interrupts.clear();
+        }
+        ChunkRead { data, pos: 0, script, call: 0, size_i: 0, stats: Arc::new(Mutex::new(ReadStats::default())), track_splits: true }
+    }
+    pub fn position(&self) -> usize {
+        self.pos
+    }
+    fn next_len(&mut self, want: usize) -> usize {
+        let remaining = self.data.len() - self.pos;
+        let mut n = want.min(remaining);
+        if !self.script.sizes.is_empty() {
+            let s = self.script.sizes[self.size_i % self.script.sizes.len()] as usize;
+            self.size_i += 1;
+            n = n.min(s.max(1));
+        }
+        // stop at the next cut strictly after pos
+        let idx = self.script.cuts.partition_point(|c| (*c as usize) <= self.pos);
+        if let Some(c) = self.script.cuts.get(idx) {
+            n = n.min(*c as usize - self.pos);
+        }
+        n
+    }
+}
+
+impl Read for ChunkRead {
+    fn read(&mut self, buf: &mut [u8]) -> io::Result<usize> {
+        let stats = self.stats.clone();
+        let mut st = stats.lock().unwrap();
+        st.calls += 1;
+        if !self.script.interrupts.is_empty() {
+            let i = self.call % self.script.interrupts.len();
+            self.call += 1;
+            if self.script.interrupts[i] && st.interrupts < MAX_INTERRUPTS {
+                st.interrupts += 1;
+                return Err(io::Error::new(io::ErrorKind::Interrupted, "injected interrupt"));
+            }
+        }
+        if buf.is_empty() || self.pos >= self.data.len() {
+            return Ok(0);
+        }
+        let n = self.next_len(buf.len());
+        buf[..n].copy_from_slice(&self.data[self.pos..self.pos + n]);
+        self.pos += n;
+        if n < buf.len() && self.pos < self.data.len() {
+            st.short_reads += 1;
+            if self.track_splits && st.splits.len() < 100_000 {
+                st.splits.push(self.pos);
+            }
+        }
+        Ok(n)
+    }
+}
+
+impl Seek for ChunkRead {
+    fn seek(&mut self, pos: SeekFrom) -> io::Result<u64> {
+        let new = match pos {
+            SeekFrom::Start(p) => p as i128,
+            SeekFrom::End(d) => self.data.len() as i128 + d as i128,
+            SeekFrom::Current(d) => self.pos as i128 + d as i128,
+        };
+        if new < 0 {
+            return Err(io::Error::new(io::ErrorKind::InvalidInput, "seek before start"));
+        }
+        self.pos = (new as u128).min(usize::MAX as u128) as usize;
+        Ok(self.pos as u64)
+    }
+}
+
+/// A direct `BufRead`: `fill_buf` exposes only the current scripted window (down to one byte)
+/// until it has been consumed.
+pub struct WindowBufRead {
+    data: Arc<Vec<u8>>,
+    pos: usize,
+    window_end: usize,
+    sizes: Vec<u32>,
+    size_i: usize,
+    interrupts: Vec<bool>,
+    call: usize,
+    pub stats: Arc<Mutex<ReadStats>>,
+}
+
+impl WindowBufRead {
+    pub fn new(data: Arc<Vec<u8>>, script: ReadScript) -> Self {
+        let mut sizes = script.sizes.clone();
+        sizes.retain(|s| *s > 0);
+        let interrupts = if script.has_interrupts() { script.interrupts.clone() } else { Vec::new() };
+        WindowBufRead { data, pos: 0, window_end: 0, sizes, size_i: 0, interrupts, call: 0, stats: Arc::new(Mutex::new(ReadStats::default())) }
+    }
+}
+
+impl BufRead for WindowBufRead {
+    fn fill_buf(&mut self) -> io::Result<&[u8]> {
+        if self.pos >= self.window_end {
+            if !self.interrupts.is_empty() {
+                let i = self.call % self.interrupts.len();
+                self.call += 1;
+                if self.interrupts[i] && self.stats.lock().unwrap().interrupts < MAX_INTERRUPTS {
+                    self.stats.lock().unwrap().interrupts += 1;
+                    return Err(io::Error::new(io::ErrorKind::Interrupted, "injected interrupt"));
+                }
+            }
+            let remaining = self.data.len() - self.pos;
+            let n = if self.sizes.is_empty() {
+                remaining
+            } else {
+                let s = self.sizes[self.size_i % self.sizes.len()] as usize;
+                self.size_i += 1;
+                s.max(1).min(remaining)
+            };
+            self.window_end = self.pos + n;
+            let mut st = self.stats.lock().unwrap();
+            st.calls += 1;
+            if n < remaining {
+                st.short_reads += 1;
+                if st.splits.len() < 100_000 {
+                    st.splits.push(self.window_end);
+                }
+            }
+        }
+        Ok(&self.data[self.pos..self.window_end])
+    }
+    fn consume(&mut self, amt: usize) {
+        self.pos = (self.pos + amt).min(self.window_end);
+    }
+}
+
+impl Read for WindowBufRead {
+    fn read(&mut self, buf: &mut [u8]) -> io::Result<usize> {
+        let src = self.fill_buf()?;
+        let n = src.len().min(buf.len());
+        buf[..n].copy_from_slice(&src[..n]);
+        self.consume(n);
+        Ok(n)
+    }
+}
+
+impl Seek for WindowBufRead {
+    fn seek(&mut self, pos: SeekFrom) -> io::Result<u64> {
+        let new = match pos {
+            SeekFrom::Start(p) => p as i128,
+            SeekFrom::End(d) => self.data.len() as i128 + d as i128,
+            SeekFrom::Current(d) => self.pos as i128 + d as i128,
+        };
+        if new < 0 {
+            return Err(io::Error::new(io::ErrorKind::InvalidInput, "seek before start"));
+        }
+        self.pos = (new as usize).min(self.data.len());
+        self.window_end = self.pos;
+        Ok(self.pos as u64)
+    }
+}
